@@ -94,6 +94,31 @@ theorem hyphen_type_exception (names : List String) (pre post : List (String × 
     · simp only [Bool.and_eq_true, beq_iff_eq] at hh; exact absurd hh h1.2
     · simp [hh, ih']
 
+theorem static_single_token (n : String) (v ty : Str) (hv : v ≠ [])
+    (hn : Lexer.pinnedDynNames.contains n = false) (hscan : scanWith pinnedRules v = ([(n, v)], [])) :
+    Lexer.defaultIsDynamic v ty = some false := by
+  rw [classification_is_pinned]
+  unfold Lexer.dynamicPinned
+  have : v.isEmpty = false := by cases v <;> simp_all
+  simp only [this, Bool.false_eq_true, if_false, hscan]
+  rw [dynLoop_false_of_none]
+  intro t ht
+  simp only [List.mem_singleton] at ht
+  subst ht
+  exact hn
+
+/-- a plain number (non-empty string of ASCII digits) is a static default, for every element type -/
+theorem static_plain_number (c : Char) (cs ty : Str) (h : Lexer.allDigits (c :: cs)) :
+    Lexer.defaultIsDynamic (c :: cs) ty = some false :=
+  static_single_token "NUMBER" (c :: cs) ty (by simp) (by decide) (Lexer.scan_number c cs h)
+
+/-- a date literal `dddd-dd-dd` is a static default, for every element type -/
+theorem static_date_literal (a b c d e f g h : Char) (ty : Str)
+    (ha : isDigit a = true) (hb : isDigit b = true) (hc : isDigit c = true) (hd : isDigit d = true)
+    (he : isDigit e = true) (hf : isDigit f = true) (hg : isDigit g = true) (hh : isDigit h = true) :
+    Lexer.defaultIsDynamic [a, b, c, d, '-', e, f, '-', g, h] ty = some false :=
+  static_single_token "DATE" _ ty (by simp) (by decide) (Lexer.scan_date a b c d e f g h ha hb hc hd he hf hg hh)
+
 /-! ## setvalue placement -/
 
 /-- **exactly once, all trees**: the first-load setvalues of the output — those in `<model>` and those
@@ -291,6 +316,7 @@ example : expSetP dynEx subEx (["data".toList, "r".toList, "b".toList], some ["d
          set := { tag := "setvalue".toList, ref := ["data".toList, "r".toList, "b".toList], event := evNewRepeat,
                   value := some "now()".toList } }] := by
   simp [expSetP, hasDynDefault, dynEx, exB, subEx]
+example : Lexer.allDigits "2024".toList := by intro c hc; simp at hc; rcases hc with rfl | rfl | rfl | rfl <;> decide
 -- lexer: the traps of DESIGN Appendix F on the pinned rules
 example : (scanWith pinnedRules "a <= b".toList).1.map (·.1) = ["NAME", "WHITESPACE", "OPS_COMP", "OPS_COMP", "WHITESPACE", "NAME"] := by
   decide +kernel
